@@ -41,12 +41,19 @@ def own(cfg):
     T("join_reordered_sides", lambda p, t, u: t >> p.select(t.c, t.a) >> p.left_join(u >> p.select(u.x, u.a), t.a == u.a), TU)
     T("join_then_overwrite", lambda p, t, u: t >> p.inner_join(u, t.a == u.a) >> p.mutate(a=u.x) >> p.select(p.C.x_u if False else p.C.a, t.b), TU)
     T("join_third", lambda p, t, u: t >> p.inner_join(u, t.a == u.a) >> p.inner_join(u >> p.alias("u"), t.a == p.C.x), TU)
+    # a hidden and a visible column of the same name carried through a SQL subquery
+    kept = lambda p, t: t >> p.mutate(a=t.a + 1) >> p.arrange(t.b.nulls_last(), t.c.nulls_last(), t.a.nulls_last()) >> p.slice_head(2) >> p.alias(keep_col_refs=True)  # noqa: E731
+    T("subquery_hidden_namesake_filter", lambda p, t: kept(p, t) >> p.filter(t.a > 1))
+    T("subquery_hidden_namesake_mutate", lambda p, t: kept(p, t) >> p.filter(t.c > 0) >> p.mutate(w=t.a))
+    T("subquery_hidden_namesake_twice", lambda p, t: t >> p.mutate(a=t.a + 1, b=t.b * 2) >> p.arrange(t.c.nulls_last(), t.a.nulls_last(), t.b.nulls_last()) >> p.slice_head(2) >> p.alias(keep_col_refs=True) >> p.filter((t.a > 1) & (t.b > 1)))
+    T("subquery_hidden_namesake_summarize", lambda p, t: kept(p, t) >> p.filter(t.a > 1) >> p.group_by(p.C.a) >> p.summarize(n=p.count(), m=t.a.max()))
+    T("subquery_renamed_namesake", lambda p, t: t >> p.rename({"a": "z"}) >> p.mutate(a=t.b) >> p.arrange(t.c.nulls_last(), t.a.nulls_last(), t.b.nulls_last()) >> p.slice_head(2) >> p.alias(keep_col_refs=True) >> p.filter(t.a > 1))
     T("union_left_order", lambda p, t, u: t >> p.select(t.b, t.a) >> p.union(u >> p.select(u.a, u.b)), TU)
     T("union_after_overwrite", lambda p, t, u: t >> p.select(t.a, t.b) >> p.mutate(a=t.b) >> p.union(u >> p.select(u.a, u.b)), TU)
     return out
 
 
-BORROW = ["pv.corpora.c02", "pv.corpora.c04", "pv.corpora.c06", "pv.corpora.c07", "pv.corpora.c09", "pv.corpora.c10"]
+BORROW = ["pv.corpora.c02", "pv.corpora.c04", "pv.corpora.c06", "pv.corpora.c07", "pv.corpora.c08", "pv.corpora.c09", "pv.corpora.c10", "pv.corpora.c16"]
 
 
 def templates(cfg):
